@@ -280,6 +280,8 @@ def _ends_with_return(body: list[ast.stmt]) -> bool:
         return True
     if isinstance(last, ast.If) and last.orelse:
         return _ends_with_return(last.body) and _ends_with_return(last.orelse)
+    if isinstance(last, ast.Try) and not last.finalbody and not last.orelse:
+        return _ends_with_return(last.body) and all(_ends_with_return(h.body) for h in last.handlers)
     return False
 
 
@@ -326,6 +328,21 @@ def _push_returns(body: list[ast.stmt], target: ast.expr | None) -> list[ast.stm
                 return None
             last.body = a or [ast.Pass()]
             last.orelse = c
+            return head + [last]
+        if isinstance(last, ast.Try) and not last.finalbody and not last.orelse and any(isinstance(x, ast.Return) for x in ast.walk(last)):
+            a = conv(last.body)
+            hs = [conv(h.body) for h in last.handlers]
+            if a is None or any(h is None for h in hs):
+                return None
+            last.body = a or [ast.Pass()]
+            for h, nb in zip(last.handlers, hs):
+                h.body = nb or [ast.Pass()]
+            return head + [last]
+        if isinstance(last, (ast.With, ast.AsyncWith)) and any(isinstance(x, ast.Return) for x in ast.walk(last)):
+            a = conv(last.body)
+            if a is None:
+                return None
+            last.body = a or [ast.Pass()]
             return head + [last]
         if any(isinstance(x, ast.Return) for x in ast.walk(last)):
             return None
@@ -706,6 +723,18 @@ def _remove_def(tree: ast.Module, h: ast.AST) -> None:
 
 
 # ------------------------------------------------------------------ N3 walrus
+def _plain_read(e: ast.expr) -> bool:
+    if isinstance(e, (ast.Name, ast.Constant)):
+        return True
+    if isinstance(e, ast.Attribute):
+        return _plain_read(e.value)
+    if isinstance(e, ast.UnaryOp) and isinstance(e.op, ast.Not):
+        return _plain_read(e.operand)
+    if isinstance(e, ast.Compare):
+        return _plain_read(e.left) and all(_plain_read(c) for c in e.comparators)
+    return False
+
+
 def hoist_walrus(tree: ast.Module, log: list[str]) -> None:
     """`if (x := e) <op> ...:`  ->  `x = e` ; `if x <op> ...:` when the walrus is the first thing evaluated."""
 
@@ -719,7 +748,20 @@ def hoist_walrus(tree: ast.Module, log: list[str]) -> None:
             elif isinstance(e, ast.Compare):
                 e = e.left
             elif isinstance(e, ast.BoolOp):
-                e = e.values[0]
+                # a later operand may carry the walrus if everything evaluated before it is a plain read and the
+                # bound value itself is a plain read (reading an attribute a little earlier changes nothing)
+                nxt = e.values[0]
+                for k, v in enumerate(e.values):
+                    w = v
+                    while isinstance(w, ast.UnaryOp) and isinstance(w.op, ast.Not):
+                        w = w.operand
+                    if isinstance(w, ast.Compare):
+                        w = w.left
+                    if isinstance(w, ast.NamedExpr) and k > 0 and _plain_read(w.value) and all(_plain_read(p) for p in e.values[:k]):
+                        return w
+                    if not _plain_read(v):
+                        break
+                e = nxt
             elif isinstance(e, ast.Attribute):
                 e = e.value
             else:
